@@ -97,6 +97,11 @@ type govWorld struct {
 
 	gammas map[int]*shcrypto.Gammas
 
+	// forkActive: the check-in update fork per the genesis file (types.go / forks.go doc
+	// comments: legacy field used only when the new one is unset; active iff enabled and the
+	// block height has reached the fork height; no override for this chain id)
+	forkActive func(height int64) bool
+
 	// hooks
 	onDeliver func(ti *txInfo, resp abcitypes.ResponseDeliverTx, height int64)
 	onEnd     func(b *simtm.Block)
@@ -149,6 +154,16 @@ func newGovWorld(r *simkit.Run, p govParams) *govWorld {
 	case 5:
 		h := int64(r.C.Range(0, 12, "legacy-fork-h"))
 		forks = &app.ForkHeights{CheckInUpdate: &h, CheckInUpdateNew: app.ForkHeight{Enabled: r.C.Bool("fork-enabled"), Height: int64(r.C.Range(1, 12, "fork-h"))}}
+	}
+	{
+		eff := app.ForkHeight{}
+		if forks != nil {
+			eff = forks.CheckInUpdateNew
+			if eff == (app.ForkHeight{}) && forks.CheckInUpdate != nil {
+				eff = app.ForkHeight{Enabled: true, Height: *forks.CheckInUpdate}
+			}
+		}
+		w.forkActive = func(h int64) bool { return eff.Enabled && h >= eff.Height }
 	}
 	nv := r.C.Range(1, 4, "genesis-validators")
 	w.chain.InitChain(gk, uint64(th), initialEon, forks, simtm.GenesisValidators(nv))
